@@ -747,6 +747,22 @@ func RunC15(d *Driver) *Report {
 			}
 		}
 		b := "    print \"" + name + "\" " + strings.Join(used, " ") + " g total lastn lasts hist names\n"
+		// globals that carry the names the built-in event signatures use for their parameters (x y n s id val k t):
+		// a handler that does not declare such a parameter reads and updates the GLOBAL of that name
+		isParam := map[string]bool{}
+		for _, u := range used {
+			isParam[u] = true
+		}
+		for _, gn := range []string{"x", "y", "n", "t"} {
+			if !isParam[gn] {
+				b += "    print \"glob " + gn + "\" " + gn + "\n    " + gn + " = " + gn + " + 1\n"
+			}
+		}
+		for _, gn := range []string{"s", "id", "val", "k"} {
+			if !isParam[gn] {
+				b += "    print \"glob " + gn + "\" " + gn + "\n    " + gn + " = " + gn + " + \"!\"\n"
+			}
+		}
 		for _, p := range strings.Fields(params) {
 			pn := strings.SplitN(p, ":", 2)
 			if pn[0] == "_" {
@@ -777,7 +793,7 @@ func RunC15(d *Driver) *Report {
 	for variant := 0; variant < 6; variant++ {
 		// choose one signature per handler (rotate through the alternatives)
 		var hs []hdl
-		src := "g := 0\ntotal := 0\nsh := 101\nlastn := 0\nlasts := \"\"\nhist := [0 0]\nnames := {n:0}\nprint \"main\" g\n"
+		src := "g := 0\ntotal := 0\nsh := 101\nlastn := 0\nlasts := \"\"\nhist := [0 0]\nnames := {n:0}\nx := 100\ny := 200\nn := 300\nt := 400\ns := \"S\"\nid := \"ID\"\nval := \"VAL\"\nk := \"K\"\nprint \"main\" g x y n t s id val k\n"
 		fsrc := src
 		for hi, name := range names {
 			if (variant+hi)%4 == 3 {
